@@ -27,6 +27,8 @@ func runC09(c *Ctx) {
 			c09SlowHandlers(c)
 		case "secs1":
 			c09SECS1(c)
+		case "slowreader":
+			c09SlowReader(c)
 		}
 		return
 	}
@@ -34,6 +36,8 @@ func runC09(c *Ctx) {
 	c09StaleSenders(c)
 	// the generation ends while an application handler still runs: waiters are released by the START of the teardown
 	c09SlowHandlers(c)
+	// senders of generation N pass the transport boundary only after N+1 is up, while N+1's peer reads a frame slowly (c09_slowreader.go)
+	c09SlowReader(c)
 	// the SECS-I transport: sends parked at the hand-off / mid-block / awaiting a reply when the generation ends
 	c09SECS1(c)
 	sizes := []int{1, 2, 3, 4, 8, 16, 32, 64}
